@@ -582,7 +582,9 @@ theorem any_isGeneric {e : BEnv} {Γ : Ctx} {fac : Factory} {n : Nat} {x : Val}
                 split at hval
                 · simp [Xs.Bind.FN.tokensOK] at hval
                 · cases hval
-              · simp [hattr, hw, ht, typedValueOKj, hl] at hval
+              · by_cases hel : v.isElements = true
+                · simp [hattr, hw, ht, hel, compValueOKj] at hval
+                · simp [hattr, hw, ht, hel, typedValueOKj, hl] at hval
         · simp [ha, attrsValueOKj] at hval
       | _ => cases fac <;> rfl
     have : k ∈ encKeys Γ fac x := by
@@ -821,16 +823,140 @@ theorem value_rt_tokens (e : BEnv) (Γ : Ctx) (fac : Factory) (n : Nat) (cfg : P
   | derived q y t' => simp [Xs.Bind.FN.tokensOK] at hx
   | attrs a => simp [Xs.Bind.FN.tokensOK] at hx
 
+/-! ### a compound field -/
+
+theorem varComp_facts {var : XmlVar} (h : varComp var = true) :
+    var.isElements = true ∧ var.listElement = true ∧ var.isAttributes = false ∧ var.isWildcard = false ∧
+    var.tokens = false ∧ var.isClazzUnion = false ∧ var.elements.isEmpty = false ∧ wrapperName var.toVarCore = none := by
+  simp only [varComp, Bool.and_eq_true, Bool.not_eq_true', Option.isNone_iff_eq_none] at h
+  obtain ⟨⟨⟨⟨⟨⟨⟨h1, h2⟩, h3⟩, h4⟩, h5⟩, h6⟩, h7⟩, h8⟩ := h
+  exact ⟨h1, h2, h3, h4, h5, h6, h7, h8⟩
+
+theorem compItem_rt (e : BEnv) (Γ : Ctx) (fac : Factory) (n : Nat) (ih : IH e Γ fac n) (cfg : ParserConfig)
+    (m : XmlMeta) (var : XmlVar) (hv : varComp var = true) (x : Val)
+    (hx : compItemOKj e (valOKj e Γ fac n) Γ fac var x = true) :
+    ∃ j, encElemWith (encModelF Γ fac {} n) x = .ok j ∧ j.isNull = isNoneV x ∧ j.isArr = false ∧ j.native = true ∧
+      bindItemWith e (bindDataclassF e Γ n) Γ cfg m var j = ND.pure x := by
+  obtain ⟨hel, _, ha, hwc, _, hcu, hne, _⟩ := varComp_facts hv
+  cases x with
+  | prim p =>
+    simp only [compItemOKj, Bool.and_eq_true, bne_iff_ne, ne_eq] at hx
+    obtain ⟨hq, hch⟩ := hx
+    refine ⟨encPrim p, rfl, ?_, ?_, ?_, ?_⟩
+    · cases p <;> rfl
+    · cases p <;> rfl
+    · cases p <;> rfl
+    · have key : Xs.Dict.bindText e cfg var (encPrim p) = .ok (.prim p) := by
+        simp only [Xs.Dict.bindText, hel, if_true]
+        cases hf : findValueChoice e var (encPrim p) with
+        | error err => simp [hf] at hch
+        | ok o =>
+          cases o with
+          | none => simp [hf] at hch
+          | some el =>
+            simp only [hf, Bool.and_eq_true, Bool.not_eq_true'] at hch
+            obtain ⟨⟨⟨ht, hat⟩, hw⟩, hty⟩ := hch
+            simp only [bindTextPlain, hat, hw, Bool.or_self, Bool.false_eq_true, if_false, ht, Bool.not_false,
+              Bool.true_and]
+            cases p with
+            | str s => simp only [encPrim, scalarType]; simp [pvalType] at hty; simp [hty, rawVal, rawScalar]
+            | int i => simp only [encPrim, scalarType]; simp [pvalType] at hty; simp [hty, rawVal, rawScalar]
+            | bool b => simp only [encPrim, scalarType]; simp [pvalType] at hty; simp [hty, rawVal, rawScalar]
+            | qname t => exact absurd rfl hq
+      unfold bindItemWith
+      simp only [ha, Bool.false_eq_true, if_false]
+      cases p with
+      | str s => simp only [encPrim]; rw [show J.str s = encPrim (.str s) from rfl, key]; rfl
+      | int i => simp only [encPrim]; rw [show J.num i = encPrim (.int i) from rfl, key]; rfl
+      | bool b => simp only [encPrim]; rw [show J.bool b = encPrim (.bool b) from rfl, key]; rfl
+      | qname t => exact absurd rfl hq
+  | obj k' fs' =>
+    simp only [compItemOKj, Bool.and_eq_true, beq_iff_eq] at hx
+    obtain ⟨hok, hpool⟩ := hx
+    obtain ⟨kvs, henc, hkeys, hnat, hdec⟩ := ih k' _ hok
+    obtain ⟨n', hn⟩ := valOKj_succ hok
+    subst hn
+    obtain ⟨fs, ci, m', hobj, _, _, hisany, _, hmeta, hcl, hid, _, _, _⟩ := valOKj_unpack hok
+    have hk'ne : k' ≠ anyId := by
+      intro heq
+      simp [isAnyV, heq] at hisany
+    have hmk := markers_user (classOKj_facts hcl).2.2.2.1 (by rw [hid]; exact hk'ne)
+    have hq : kQName ∉ kvKeys kvs := by
+      rw [hkeys]; intro hmem; exact hmk.1 (encKeys_sub hobj hmeta _ hmem)
+    have hch : kChildren ∉ kvKeys kvs := by
+      rw [hkeys]; intro hmem; exact hmk.2 (encKeys_sub hobj hmeta _ hmem)
+    have hany : isGeneric kvs anyRequired anyKeys = false :=
+      isGeneric_false_of_not_mem kvs anyRequired anyKeys kChildren (by simp [anyRequired]) hch
+    have hder : isGeneric kvs derivedRequired derivedKeys = false :=
+      isGeneric_false_of_not_mem kvs derivedRequired derivedKeys kQName (by simp [derivedRequired]) hq
+    refine ⟨.obj kvs, henc, rfl, rfl, hnat, ?_⟩
+    unfold bindItemWith
+    simp only [ha, Bool.false_eq_true, if_false, hany, hder]
+    unfold bindComplexWith
+    simp only [hcu, Bool.false_eq_true, if_false, hne, Bool.not_false, if_true]
+    exact bindBest_unique _ Γ cfg false _ kvs k' _ (by rw [hkeys]; exact hpool) hdec
+  | none => simp [compItemOKj] at hx
+  | list xs => simp [compItemOKj] at hx
+  | any q t tl a cs => simp [compItemOKj] at hx
+  | derived q y t => simp [compItemOKj] at hx
+  | attrs a => simp [compItemOKj] at hx
+
+theorem value_rt_comp (e : BEnv) (Γ : Ctx) (fac : Factory) (n : Nat) (ih : IH e Γ fac n) (cfg : ParserConfig)
+    (m : XmlMeta) (var : XmlVar) (hv : varComp var = true) (x : Val)
+    (hx : compValueOKj e (valOKj e Γ fac n) Γ fac var x = true) :
+    ∃ j, encVarWith fac (encModelF Γ fac {} n) var x = .ok j ∧ j.isNull = isNoneV x ∧ j.native = true ∧
+      varMatches (keyOf var.toVarCore) j var = true ∧
+      ∃ j', unwrapValue var j = .ok j' ∧ (j'.isNull && var.listElement) = false ∧
+        bindValueWith e (bindDataclassF e Γ n) Γ cfg m var j' = ND.pure x := by
+  obtain ⟨_, hl, ha, _, _, _, _, hw⟩ := varComp_facts hv
+  cases x with
+  | list items =>
+    simp only [compValueOKj, List.all_eq_true] at hx
+    have hitems : ∀ y ∈ items, ∃ j, encElemWith (encModelF Γ fac {} n) y = .ok j := by
+      intro y hy
+      obtain ⟨j, hj, _⟩ := compItem_rt e Γ fac n ih cfg m var hv y (hx y hy)
+      exact ⟨j, hj⟩
+    obtain ⟨js, hjs⟩ := mapM_exists _ items hitems
+    have hdec : ND.mapM (bindItemWith e (bindDataclassF e Γ n) Γ cfg m var) js = ND.pure items := by
+      apply nd_mapM_roundtrip _ _ items js hjs
+      intro y hy j hj
+      obtain ⟨j0, hj0, _, _, _, hd⟩ := compItem_rt e Γ fac n ih cfg m var hv y (hx y hy)
+      rw [hj0] at hj
+      injection hj with hj
+      rw [← hj]; exact hd
+    have hnat : (J.arr js).native = true := by
+      simp only [J.native]
+      exact nativeList_of_mapM _ items js hjs (by
+        intro y hy j hj
+        obtain ⟨j0, hj0, _, _, hn, _⟩ := compItem_rt e Γ fac n ih cfg m var hv y (hx y hy)
+        rw [hj0] at hj
+        injection hj with hj
+        rw [← hj]; exact hn)
+    refine ⟨.arr js, ?_, rfl, hnat, ?_, .arr js, ?_, ?_, ?_⟩
+    · simp only [encVarWith, hw, encCoreWith, hjs]; rfl
+    · simp [varMatches, keyOf, hw, J.isArr, varIsList, hl]
+    · simp [unwrapValue, hw]
+    · simp [J.isNull]
+    · unfold bindValueWith
+      simp only [ha, Bool.false_eq_true, if_false, hl, if_true, hdec, nd_pure_bind]
+  | none => simp [compValueOKj] at hx
+  | prim p => simp [compValueOKj] at hx
+  | obj c fs => simp [compValueOKj] at hx
+  | any q t tl a cs => simp [compValueOKj] at hx
+  | derived q y t => simp [compValueOKj] at hx
+  | attrs a => simp [compValueOKj] at hx
+
 /-! ### any var of the fragment -/
 
 theorem varOKj_cases {var : XmlVar} (hv : varOKj var = true) :
-    varTyped var = true ∨ varAttrs var = true ∨ varWild var = true ∨ varTokens var = true := by
+    varTyped var = true ∨ varAttrs var = true ∨ varWild var = true ∨ varTokens var = true ∨ varComp var = true := by
   simp only [varOKj, Bool.or_eq_true] at hv
-  rcases hv with ((h | h) | h) | h
+  rcases hv with (((h | h) | h) | h) | h
   · exact Or.inl h
   · exact Or.inr (Or.inl h)
   · exact Or.inr (Or.inr (Or.inl h))
-  · exact Or.inr (Or.inr (Or.inr h))
+  · exact Or.inr (Or.inr (Or.inr (Or.inl h)))
+  · exact Or.inr (Or.inr (Or.inr (Or.inr h)))
 
 theorem value_rt (e : BEnv) (Γ : Ctx) (fac : Factory) (n : Nat) (ih : IH e Γ fac n) (cfg : ParserConfig)
     (m : XmlMeta) (var : XmlVar) (hv : varOKj var = true) (x : Val)
@@ -840,9 +966,9 @@ theorem value_rt (e : BEnv) (Γ : Ctx) (fac : Factory) (n : Nat) (ih : IH e Γ f
       ∃ j', unwrapValue var j = .ok j' ∧ (j'.isNull && var.listElement) = false ∧
         bindValueWith e (bindDataclassF e Γ n) Γ cfg m var j' = ND.pure x := by
   unfold valueOKj at hx
-  rcases varOKj_cases hv with hv | hv | hv | hv
-  · obtain ⟨h1, h2, _, _, _, _, h7⟩ := varTyped_facts hv
-    simp only [h1, h2, h7, Bool.false_eq_true, if_false] at hx
+  rcases varOKj_cases hv with hv | hv | hv | hv | hv
+  · obtain ⟨h1, h2, h3, _, _, _, h7⟩ := varTyped_facts hv
+    simp only [h1, h2, h3, h7, Bool.false_eq_true, if_false] at hx
     exact value_rt_typed e Γ fac n ih cfg m var hv x hx
   · have ha : var.isAttributes = true := by simp only [varAttrs, Bool.and_eq_true] at hv; exact hv.1.1.1
     simp only [ha, if_true] at hx
@@ -853,14 +979,18 @@ theorem value_rt (e : BEnv) (Γ : Ctx) (fac : Factory) (n : Nat) (ih : IH e Γ f
   · obtain ⟨ht, _, ha, hw, _⟩ := varTokens_facts hv
     simp only [ha, hw, ht, Bool.false_eq_true, if_false, if_true] at hx
     exact value_rt_tokens e Γ fac n cfg m var hv x hx
+  · obtain ⟨hel, _, ha, hw, ht, _⟩ := varComp_facts hv
+    simp only [ha, hw, ht, hel, Bool.false_eq_true, if_false, if_true] at hx
+    exact value_rt_comp e Γ fac n ih cfg m var hv x hx
 
 theorem varOKj_wrapper_ne {var : XmlVar} (hv : varOKj var = true) (w : Str)
     (hw : wrapperName var.toVarCore = some w) : var.localName ≠ w := by
-  rcases varOKj_cases hv with hv | hv | hv | hv
+  rcases varOKj_cases hv with hv | hv | hv | hv | hv
   · exact (varTyped_wrapper hv w hw).2
   · simp [varAttrs, hw] at hv
   · have := (varWild_facts hv).2.2.2.2; rw [hw] at this; cases this
   · have := (varTokens_facts hv).2.2.2.2.2.2.1; rw [hw] at this; cases this
+  · have := (varComp_facts hv).2.2.2.2.2.2.2; rw [hw] at this; cases this
 
 /-! ### the two loops -/
 
@@ -1292,7 +1422,7 @@ theorem valOKu_valOKj (e : BEnv) (Γ : Ctx) (fac : Factory) (huni : noSubclassPo
       cases x with
       | any q t tl a cs => exact ih _ _ hx
       | _ => exact hx
-    have hval : ∀ (var : XmlVar) (x : Val), valueOKu e (valOKu e Γ fac n) Γ var x = true →
+    have hval : ∀ (var : XmlVar) (x : Val), valueOKu e (valOKu e Γ fac n) Γ fac var x = true →
         valueOKj e (valOKj e Γ fac n) Γ fac var x = true := by
       intro var x hx
       unfold valueOKu at hx
@@ -1320,7 +1450,22 @@ theorem valOKu_valOKj (e : BEnv) (Γ : Ctx) (fac : Factory) (huni : noSubclassPo
           by_cases htk : var.tokens = true
           · simpa [htk] using hx
           have htk' : var.tokens = false := by simpa using htk
-          simp only [htk', Bool.false_eq_true, if_false, typedValueOKu, typedValueOKj] at hx ⊢
+          simp only [htk', Bool.false_eq_true, if_false] at hx ⊢
+          by_cases hel : var.isElements = true
+          · simp only [hel, if_true, compValueOKj] at hx ⊢
+            cases x with
+            | list items =>
+              simp only [List.all_eq_true] at hx ⊢
+              intro y hy
+              have := hx y hy
+              cases y with
+              | obj k' fs' =>
+                simp only [compItemOKj, Bool.and_eq_true] at this ⊢
+                exact ⟨ih _ _ this.1, this.2⟩
+              | _ => exact this
+            | _ => exact hx
+          have hel' : var.isElements = false := by simpa using hel
+          simp only [hel', Bool.false_eq_true, if_false, typedValueOKu, typedValueOKj] at hx ⊢
           by_cases hl : var.listElement = true
           · simp only [hl, if_true] at hx ⊢
             cases x with
